@@ -148,8 +148,14 @@ def fmtLin (evs : List (LEv BigF)) (res : List (Int × Option (DVec BigF × DVec
 
 partial def parseFn (ts : List String) : P (Fn × List String) :=
   match ts with
-  | "C0" :: a :: b :: rest => do return (.const false (← nat a) (← nat b), rest)
-  | "C1" :: a :: b :: rest => do return (.const true (← nat a) (← nat b), rest)
+  | "C0" :: a :: b :: rest => do
+    let b ← nat b
+    if b == 0 then throw "const-denominator-0"
+    return (.const false (← nat a) b, rest)
+  | "C1" :: a :: b :: rest => do
+    let b ← nat b
+    if b == 0 then throw "const-denominator-0"
+    return (.const true (← nat a) b, rest)
   | "V" :: i :: rest => do return (.var (← nat i), rest)
   | "+" :: rest => do let (a, r) ← parseFn rest; let (b, r) ← parseFn r; return (.add a b, r)
   | "-" :: rest => do let (a, r) ← parseFn rest; let (b, r) ← parseFn r; return (.sub a b, r)
@@ -297,57 +303,59 @@ def opsC15 : List (String × Handler) := [
         let b := f.bnd (fun i => ea.getD i (k 0)) (fun i => da.getD i (k 0))
         return fmt [b.m0, b.l, b.r]
       | _ => throw "arity"),
-  -- c15.bb <bmv|bvv|bvmv|lti> n m <rank dims…>* data…   batched helpers under torch.matmul broadcasting
-  --   bmv: shapeM shapeV M-items v-items;  bvv: shapeL shapeR;  bvmv: shapeL shapeM shapeR;
-  --   lti: hasc shapeA shapeX shapeB shapeU [shapeC] A x B u [c]  (A is n×n, B is n×m)
-  --   → `S rank dims… V values…` or `R` (shapes do not broadcast)
+  -- c15.bb <fn> <declared core dims> <rank dims…>* data…   batched helpers with the code's shape assertions
+  --   bmv rows cols lv  shapeM shapeV  M-items v-items          (raises when cols ≠ lv or the batch shapes do not broadcast)
+  --   bvv ll lr  shapeL shapeR  l-items r-items
+  --   bvmv ll rows cols lr  shapeL shapeM shapeR  l M r         (atleast_1d: an unbatched call has shape (1,))
+  --   lti hasc ra ca lx rb cb lu [lc]  shapeA shapeX shapeB shapeU [shapeC]  A x B u [c]
+  --   → `S rank dims… V values…` (batch shape of the result) or `R` (the code raises)
   ("c15.bb", fun ts => do
+      let takeShape : List String → P (List Nat × List String) := fun ts =>
+        match ts with
+        | r :: rest => do let r ← nat r; let (d, rest) ← takeN r rest; return (← nats d, rest)
+        | [] => .error "arity"
+      let takeNats : Nat → List String → P (List Nat × List String) := fun n ts => do
+        let (a, rest) ← takeN n ts
+        return (← nats a, rest)
+      let takeVecT : List Nat → Nat → List String → P (VT BigF × List String) := fun sh len ts => do
+        let (xs, rest) ← takeNums (Batch.numel sh * len) ts
+        let items := (chunks len (Batch.numel sh) xs).toArray
+        return (⟨sh, len, fun k => items.getD k []⟩, rest)
+      let takeMatT : List Nat → Nat → Nat → List String → P (MT BigF × List String) := fun sh r c ts => do
+        let (xs, rest) ← takeNums (Batch.numel sh * r * c) ts
+        let items := ((chunks (r * c) (Batch.numel sh) xs).map (chunks c r)).toArray
+        return (⟨sh, r, c, fun k => items.getD k []⟩, rest)
+      let out : Option (Batch.Shape × (Nat → List BigF)) → String := fun o => match o with
+        | none => "R"
+        | some (sh, dat) => s!"S {sh.length} " ++ fmtNats sh ++ " V " ++ fmt ((List.range (Batch.numel sh)).flatMap dat)
       match ts with
-      | fn :: n :: m :: rest =>
-        let n ← nat n; let m ← nat m
-        let takeShape : List String → P (List Nat × List String) := fun ts =>
-          match ts with
-          | r :: rest => do let r ← nat r; let (d, rest) ← takeN r rest; return (← nats d, rest)
-          | [] => .error "arity"
-        let takeVecT : List Nat → Nat → List String → P (Batch.T (DVec BigF) × List String) := fun sh len ts => do
-          let (xs, rest) ← takeNums (Batch.numel sh * len) ts
-          let items := (chunks len (Batch.numel sh) xs).toArray
-          return (⟨sh, fun k => items.getD k []⟩, rest)
-        let takeMatT : List Nat → Nat → Nat → List String → P (Batch.T (DMat BigF) × List String) := fun sh r c ts => do
-          let (xs, rest) ← takeNums (Batch.numel sh * r * c) ts
-          let items := ((chunks (r * c) (Batch.numel sh) xs).map (chunks c r)).toArray
-          return (⟨sh, fun k => items.getD k []⟩, rest)
-        let outVec : Option (Batch.T (DVec BigF)) → String := fun o => match o with
-          | none => "R"
-          | some z => s!"S {z.shape.length} " ++ fmtNats z.shape ++ " V " ++
-              fmt ((List.range (Batch.numel z.shape)).flatMap z.data)
-        match fn with
-        | "bmv" =>
-          let (s1, rest) ← takeShape rest; let (s2, rest) ← takeShape rest
-          let (M, rest) ← takeMatT s1 n m rest; let (v, _) ← takeVecT s2 m rest
-          return outVec (bmvB M v)
-        | "bvv" =>
-          let (s1, rest) ← takeShape rest; let (s2, rest) ← takeShape rest
-          let (l, rest) ← takeVecT s1 n rest; let (r, _) ← takeVecT s2 m rest
-          return outVec ((bvvB l r).map fun z => ⟨z.shape, fun k => (z.data k).flatten⟩)
-        | "bvmv" =>
-          let (s1, rest) ← takeShape rest; let (s2, rest) ← takeShape rest; let (s3, rest) ← takeShape rest
-          let (l, rest) ← takeVecT s1 n rest; let (M, rest) ← takeMatT s2 n m rest; let (r, _) ← takeVecT s3 m rest
-          return outVec ((bvmvB l M r).map fun z => ⟨z.shape, fun k => [z.data k]⟩)
-        | "lti" =>
-          match rest with
-          | hc :: rest =>
-            let hc ← nat hc
-            let (sA, rest) ← takeShape rest; let (sX, rest) ← takeShape rest
-            let (sB, rest) ← takeShape rest; let (sU, rest) ← takeShape rest
-            let (sC, rest) ← if hc == 1 then takeShape rest else pure ([], rest)
-            let (A, rest) ← takeMatT sA n n rest; let (x, rest) ← takeVecT sX n rest
-            let (B, rest) ← takeMatT sB n m rest; let (u, rest) ← takeVecT sU m rest
-            let c ← if hc == 1 then (do let (c, _) ← takeVecT sC n rest; pure (some c)) else pure none
-            return outVec (affineB A B c x u)
-          | _ => throw "arity"
-        | _ => throw "bad-fn"
-      | _ => throw "arity"),
+      | "bmv" :: rest =>
+        let (d, rest) ← takeNats 3 rest
+        let (s1, rest) ← takeShape rest; let (s2, rest) ← takeShape rest
+        let (M, rest) ← takeMatT s1 (d.getD 0 0) (d.getD 1 0) rest; let (v, _) ← takeVecT s2 (d.getD 2 0) rest
+        return out ((bmvG M v).map fun z => (z.shape, z.data))
+      | "bvv" :: rest =>
+        let (d, rest) ← takeNats 2 rest
+        let (s1, rest) ← takeShape rest; let (s2, rest) ← takeShape rest
+        let (l, rest) ← takeVecT s1 (d.getD 0 0) rest; let (r, _) ← takeVecT s2 (d.getD 1 0) rest
+        return out ((bvvG l r).map fun z => (z.shape, fun k => (z.data k).flatten))
+      | "bvmv" :: rest =>
+        let (d, rest) ← takeNats 4 rest
+        let (s1, rest) ← takeShape rest; let (s2, rest) ← takeShape rest; let (s3, rest) ← takeShape rest
+        let (l, rest) ← takeVecT s1 (d.getD 0 0) rest; let (M, rest) ← takeMatT s2 (d.getD 1 0) (d.getD 2 0) rest
+        let (r, _) ← takeVecT s3 (d.getD 3 0) rest
+        return out ((bvmvG l M r).map fun z => (z.shape, fun k => [z.data k]))
+      | "lti" :: hc :: rest =>
+        let hc ← nat hc
+        let (d, rest) ← takeNats (if hc == 1 then 7 else 6) rest
+        let (sA, rest) ← takeShape rest; let (sX, rest) ← takeShape rest
+        let (sB, rest) ← takeShape rest; let (sU, rest) ← takeShape rest
+        let (sC, rest) ← if hc == 1 then takeShape rest else pure ([], rest)
+        let (A, rest) ← takeMatT sA (d.getD 0 0) (d.getD 1 0) rest; let (x, rest) ← takeVecT sX (d.getD 2 0) rest
+        let (B, rest) ← takeMatT sB (d.getD 3 0) (d.getD 4 0) rest; let (u, rest) ← takeVecT sU (d.getD 5 0) rest
+        let c ← if hc == 1 then (do let (c, _) ← takeVecT sC (d.getD 6 0) rest; pure (some c)) else pure none
+        return out ((affineG A B c x u).map fun z => (z.shape, z.data))
+      | _ => throw "bad-fn"),
   ("c15.bmv", fun ts => do
       match ts with
       | r :: c :: rest =>
